@@ -381,7 +381,7 @@ func checkParse(ctx *pbt.Ctx, c Scr) error {
 	}
 	switch {
 	case v.Ambiguous:
-		ctx.Label("verdict: not claimed (OP_RETURN after unbalanced ENDIF)")
+		ctx.Label("verdict: not claimed (OP_RETURN after unbalanced ENDIF or OP_VERIF/OP_VERNOTIF)")
 	case v.Truncated && err == nil:
 		return fmt.Errorf("Parse accepted %s although the push at a reference-reader offset is truncated", short(script))
 	case !v.Truncated && err != nil:
@@ -482,6 +482,20 @@ func enumShort(tier string, yield func(Scr)) {
 			yield(Scr{How: "enum", Script: pbt.Hex{byte(a), byte(b)}})
 		}
 	}
+	// 64 kB boundary pushes in every form wide enough, alone and between two opcodes
+	for _, n := range []int{65535, 65536, 65537} {
+		data := make([]byte, n)
+		for i := range data {
+			data[i] = byte(i*5 + n)
+		}
+		for _, form := range []int{2, 4} {
+			if form == 2 && n > 65535 {
+				continue
+			}
+			yield(Scr{How: "enum-64k", Script: ref.PushForm(data, form)})
+			yield(Scr{How: "enum-64k", Script: append(append([]byte{0x76}, ref.PushForm(data, form)...), 0xac)})
+		}
+	}
 	if tier == "thorough" {
 		for _, a := range threeByteHeads {
 			for b := 0; b < 256; b++ {
@@ -493,7 +507,7 @@ func enumShort(tier string, yield func(Scr)) {
 	}
 }
 
-const enumShortDesc = "all 65 793 scripts of length <= 2; thorough: also all 3-byte scripts whose first byte is one of 00 01 02 03 4b 4c 4d 4e 4f 51 63 68 6a 76 ff (983 040)"
+const enumShortDesc = "all 65 793 scripts of length <= 2; 10 scripts with a 65535/65536/65537-byte push in PUSHDATA2/4 form; thorough: also all 3-byte scripts whose first byte is one of 00 01 02 03 4b 4c 4d 4e 4f 51 63 68 6a 76 ff (983 040)"
 
 func TestParseUnparse(t *testing.T) {
 	pbt.Run(t, pbt.Sub[Scr]{
@@ -737,8 +751,13 @@ func TestTruncation(t *testing.T) {
 			return Scr{How: "well-formed", Script: s}
 		},
 		Check:    checkTrunc,
-		EnumDesc: "single pushes of every length 1..300 in every push form wide enough (direct, PUSHDATA1/2/4), alone and behind OP_DUP, every cut position",
+		EnumDesc: "single pushes of every length 1..300 in every push form wide enough (direct, PUSHDATA1/2/4), alone and behind OP_DUP, every cut position; 65535/65536-byte pushes at the cuts next to the push boundaries",
 		Enum: func(tier string, yield func(Scr)) {
+			for _, n := range []int{65535, 65536} {
+				data := make([]byte, n)
+				yield(Scr{How: "enum-64k", Script: append([]byte{0x76}, ref.PushForm(data, 0)...)})
+				yield(Scr{How: "enum-64k", Script: ref.PushForm(data, 4)})
+			}
 			for n := 0; n <= 300; n++ {
 				data := make([]byte, n)
 				for i := range data {
